@@ -31,7 +31,7 @@ def cases(tier, seed):
     allops = hist_array.ALPHABET + hist_array.EXTRA + ['md_set', 'md_pop', 'md_clear', 'recreate', 'md_set']
     for k in range(700 if tier == 'quick' else 8000):
         nt, bo = COMBOS[k % len(COMBOS)]
-        start = rng.choice(hist_array.STARTS + [(1,), (4, 3), (2, 3, 1, 2)])
+        start = rng.choice(hist_array.STARTS + [(1,), (4, 3), (2, 3, 1, 2), (11,), (10, 2), (100,)])
         yield {'kind': 'array', 'start': {'shape': list(start), 'numtype': nt, 'bo': bo, 'chunklen': rng.choice([1, 2, 100])},
                'ops': [rng.choice(allops) for _ in range(rng.randint(2, 14))], 'vseed': f'{seed}:{k}',
                'observe': ['every', 'sparse', 'end'][k % 3]}
